@@ -99,4 +99,40 @@ Section TSim.
         | _, _ => []
         end
     end.
+  (** the same pairs by a worklist with a visited set: [tbuild] re-explores shared sub-types and needs a fuel of the
+      nesting depth, which deep synthesised types exceed; the theorems hold for any table that passes [tsim_ok] *)
+  Definition tkids (te : texpr) (sh : jshape) : ttable :=
+    match te, sh with
+    | TNullable (TArr t'), ShNullable (ShArrayOf s) | TNullable (TArr t'), ShArrayOf s => [(t', s)]
+    | TNullable (TRecord _ v), ShNullable (ShMapOf s) | TNullable (TRecord _ v), ShMapOf s => [(v, s)]
+    | TRef n, _ =>
+        match lookup_decl n tenv0 with
+        | Some (TDAlias t') | Some (TDBrand t') => [(t', sh)]
+        | Some (TDTuple _ t') => match sh with ShTuple _ s => [(t', s)] | _ => [] end
+        | Some (TDInterface fields) =>
+            match sh with
+            | ShRef id => match lookup_def id jenv0 with
+                          | Some (DObject gf) => map (fun tg => (snd (fst tg), shape_of_field (snd tg))) (combine fields gf)
+                          | _ => [] end
+            | _ => [] end
+        | Some (TDUnion alts) =>
+            match sh with
+            | ShRef id => match lookup_def id jenv0 with
+                          | Some (DUnion members) => map (fun am => (snd (fst am), snd (snd am))) (combine alts members)
+                          | _ => [] end
+            | _ => [] end
+        | _ => []
+        end
+    | _, _ => []
+    end.
+
+  Fixpoint tclose (fuel : nat) (todo acc : ttable) : ttable :=
+    match fuel with
+    | O => acc
+    | S f =>
+        match todo with
+        | [] => acc
+        | (te, sh) :: r => if tmemb acc te sh then tclose f r acc else tclose f (tkids te sh ++ r)%list ((te, sh) :: acc)
+        end
+    end.
 End TSim.
